@@ -5,7 +5,8 @@
    setJ5Ext / resolveType / ensureImport and the one-declaration file around a property, over ALL
    abstract fields (field type x rules x list rules x format x key qualifiers x array/map wrapper x
    required/optional, including shapes no source text can produce).  The BCL lexer/parser is C11's;
-   the BCL walker's reflection mechanics are explored by the correspondence streams, not modelled. *)
+   the schema-directed BCL walker is model/CmpbWalk.v + CmpbWalkFile.v (round 3, last block of this file), tied by the
+   'walk' / 'full' correspondence streams. *)
 From Coq Require Import String List NArith ZArith Bool Arith.
 From J5V.lib Require Import Text Outcome.
 From J5V.gen Require SetExtGen PanicGen WalkerGen SourcewalkGen WalkSchemaGen.
@@ -336,7 +337,8 @@ Print Assumptions C07_loader_is_an_admissible_order.
    ====================================================================================================== *)
 (* for EVERY entity declaration: the expansion returns components or one of the walker's two errors, and the
    converter neither panics on them nor produces a file that fails to link (Entity.v has no
-   query.listRequest: that construct panics — recorded finding, C07_service_refuted) *)
+   query.listRequest: since fix 985f10a that construct is a positioned error, not a panic - recorded finding
+   'listRequest not accepted', C07_service_refuted) *)
 Theorem C07_entity_total_links : forall e,
   match compile_entity e with
   | Ok v => v <> VPanic /\ v <> VLinkErr
